@@ -836,7 +836,8 @@ class H2Stream:
         self.state_machine.process_input(input_)
         return
 
-    def send_headers(self, headers, encoder, end_stream=False):
+    def send_headers(self, headers, encoder, end_stream=False,
+                     reserved_bytes=0):
         """
         Returns a list of HEADERS/CONTINUATION frames to emit as either headers
         or trailers.
@@ -869,7 +870,7 @@ class H2Stream:
         hf = HeadersFrame(self.stream_id)
         hdr_validation_flags = self._build_hdr_validation_flags(events)
         frames = self._build_headers_frames(
-            headers, encoder, hf, hdr_validation_flags
+            headers, encoder, hf, hdr_validation_flags, reserved_bytes
         )
 
         if end_stream:
@@ -907,8 +908,9 @@ class H2Stream:
         ppf = PushPromiseFrame(self.stream_id)
         ppf.promised_stream_id = related_stream_id
         hdr_validation_flags = self._build_hdr_validation_flags(events)
+        # The promised stream ID takes up four bytes of the first frame.
         frames = self._build_headers_frames(
-            headers, encoder, ppf, hdr_validation_flags
+            headers, encoder, ppf, hdr_validation_flags, 4
         )
 
         return frames
@@ -1248,9 +1250,14 @@ class H2Stream:
                               headers,
                               encoder,
                               first_frame,
-                              hdr_validation_flags):
+                              hdr_validation_flags,
+                              reserved_bytes=0):
         """
         Helper method to build headers or push promise frames.
+
+        ``reserved_bytes`` is the room the first frame needs for fields other
+        than the header block fragment (priority information, promised
+        stream ID): its fragment is that much shorter.
         """
         # We need to lowercase the header names, and to ensure that secure
         # header fields are kept out of compression contexts.
@@ -1270,19 +1277,18 @@ class H2Stream:
 
         encoded_headers = encoder.encode(headers)
 
-        # Slice into blocks of max_outbound_frame_size. Be careful with this:
-        # it only works right because we never send padded frames or priority
-        # information on the frames. Revisit this if we do.
-        header_blocks = [
+        # Slice into blocks of max_outbound_frame_size. We never send padded
+        # frames, but the first frame may have to leave room for priority
+        # information or a promised stream ID. An empty header list (e.g.
+        # empty trailers) encodes to an empty block in a single frame.
+        first_size = self.max_outbound_frame_size - reserved_bytes
+        header_blocks = [encoded_headers[:first_size]]
+        header_blocks.extend(
             encoded_headers[i:i+self.max_outbound_frame_size]
             for i in range(
-                0, len(encoded_headers), self.max_outbound_frame_size
+                first_size, len(encoded_headers), self.max_outbound_frame_size
             )
-        ]
-
-        # An empty header list (e.g. empty trailers) encodes to an empty block.
-        if not header_blocks:
-            header_blocks = [b'']
+        )
 
         frames = []
         first_frame.data = header_blocks[0]
